@@ -310,6 +310,7 @@ func runC04(t *testing.T, c TxCase) *kit.Result {
 
 func genTxCase(r *kit.Rand, tier string) TxCase {
 	c := TxCase{Sched: kit.GenSched(r, kit.PickOf(r, "conc", "dense")), Knobs: kit.GenKnobs(r), ValPad: kit.PickOf(r, 8, 100, 400)}
+	c.Knobs.DiskUs = kit.PickOf(r, 0, 0, 100, 1000) // calls take virtual time: they overlap with timers and each other
 	c.Sched.MaxVirtS = 3600
 	c.Knobs.MemTableSize = kit.PickOf(r, int64(256), 512, 4096, 32<<20)
 	nc := r.Range(2, 6)
